@@ -266,6 +266,7 @@ class Meter:
     count = 0
     budget = 1 << 62
     active = False
+    tripped = False     # the budget was exhausted since start() - authoritative even if the exception was swallowed
 
     @classmethod
     def install(cls) -> None:
@@ -283,6 +284,7 @@ class Meter:
             cls.count += 1
             if cls.count > cls.budget:
                 cls.budget = 1 << 62
+                cls.tripped = True
                 mon.set_events(tool, 0)
                 cls.active = False
                 raise WorkBudgetExceeded(cls.count)
@@ -300,6 +302,7 @@ class Meter:
         cls.count = 0
         cls.budget = budget
         cls.active = True
+        cls.tripped = False
         mon = sys.monitoring
         mon.set_events(mon.PROFILER_ID, mon.events.PY_START | mon.events.JUMP | mon.events.CALL)
 
@@ -312,3 +315,28 @@ class Meter:
             cls.active = False
         cls.budget = 1 << 62
         return cls.count
+
+
+# ---------------------------------------------------------------------------------------
+# observation of x690's TLV walk (known finding C20/C19: indefinite length without end-of-contents)
+
+X690_WATCH = {"indef_no_eoc": 0}
+
+
+def install_x690_watch() -> None:
+    """Wrap x690.util.get_value_slice once per process.  The wrapper never alters the result; it notes when
+    the walk meets a length octet 0x80 with no 00 00 at or after it (the input condition under which
+    x690 1.0 returns 'next TLV at index 1' and Sequence.decode_raw never terminates)."""
+    import x690.types as xt
+    import x690.util as xu
+    if getattr(xu.get_value_slice, "_verif_orig", None) is not None:
+        return
+    orig = xu.get_value_slice
+
+    def get_value_slice(data: bytes, index: int = 0) -> Any:
+        if index + 1 < len(data) and data[index + 1] == 0x80 and data.find(b"\x00\x00", index) == -1:
+            X690_WATCH["indef_no_eoc"] += 1
+        return orig(data, index)
+    get_value_slice._verif_orig = orig  # type: ignore[attr-defined]
+    xt.get_value_slice = get_value_slice
+    xu.get_value_slice = get_value_slice
